@@ -298,7 +298,23 @@ func ReplayFromFile(path string) (bool, string, error) {
 		return false, "", err
 	}
 	if p.Custom != nil {
-		return false, "", fmt.Errorf("replay of %s is handled by its own command", rf.Violation.Prop)
+		// custom (enumeration) checks are cheap: re-run the enumeration in a scratch root with no
+		// known-findings file and look for the recorded signature
+		tmp, err := os.MkdirTemp("", "fmc-replay-")
+		if err != nil {
+			return false, "", err
+		}
+		defer os.RemoveAll(tmp)
+		out, err := p.Custom(p, ExecOpts{Workers: 4, Deadline: time.Now().Add(10 * time.Minute), Root: tmp, Tier: rf.Tier})
+		if err != nil {
+			return false, "", err
+		}
+		for _, l := range out.Lines {
+			if strings.Contains(l, "signature="+rf.Violation.Sig+" ") {
+				return false, fmt.Sprintf("REPRODUCED property=%s signature=%s", rf.Violation.Prop, rf.Violation.Sig), nil
+			}
+		}
+		return true, fmt.Sprintf("not reproduced: property=%s signature=%s holds on this tree", rf.Violation.Prop, rf.Violation.Sig), nil
 	}
 	sc := findScenario(p, rf.Scenario)
 	w, err := world.New(sc.Cfg)
